@@ -86,4 +86,168 @@ theorem windowAt_month (L I : Int) (a : Nat) :
   exact ⟨by rw [this.2, monthEndOf_succ], this.1⟩
 
 
+
+/-- the stages of `_aggregate_period`, with the anchor exposed (C08's `aggregatePeriod_decompose` hides it) -/
+theorem aggregatePeriod_anchor {tr : Transc} {t out : List Cell} {q : Int} {s : String}
+    {origin : Date} {prem : Bool}
+    (h : aggregatePeriod tr t (some (q, s)) origin prem = .ok out) :
+    ∃ q' u c0 tl init rel newCells, standardizeResolution q s = .ok (q', u) ∧
+      (t.mergeSort fun a b => coordCmp a b != .gt) = c0 :: tl ∧
+      anchorBefore q' u origin c0.ps = some init ∧
+      assignWindows q' u init (c0 :: tl) = .ok rel ∧
+      smMapE (aggCell tr prem) (groupsOf key3 rel) = .ok newCells ∧ out.Perm newCells := by
+  unfold aggregatePeriod at h
+  simp only at h
+  split at h
+  · cases h
+  · rename_i q' u hst
+    split at h
+    · cases h
+    · rename_i c0 tl hsorted
+      split at h
+      · cases h
+      · rename_i init hinit
+        split at h
+        · cases h
+        · rename_i rel hrel
+          split at h
+          · cases h
+          · rename_i newCells hnew
+            rw [groupBy_eq_groupsOf] at hnew
+            exact ⟨q', u, c0, tl, init, rel, newCells, hst, hsorted, hinit, by rw [← hsorted]; exact hrel, hnew,
+              ofCells_ok_perm h⟩
+
+
+
+theorem ratsum_zip {α β} (φ : α → Rat) (ψ : β → Rat) :
+    ∀ (l : List α) (r : List β), l.length = r.length → (∀ p ∈ l.zip r, φ p.1 = ψ p.2) →
+      (l.map φ).sum = (r.map ψ).sum
+  | [], [], _, _ => rfl
+  | a :: l, b :: r, hlen, h => by
+    simp only [List.map_cons, List.sum_cons]
+    rw [h (a, b) (by simp), ratsum_zip φ ψ l r (by simpa using hlen) fun p hp => h p (by simp [hp])]
+  | [], _ :: _, hlen, _ => by simp at hlen
+  | _ :: _, [], hlen, _ => by simp at hlen
+
+theorem exists_zip_of_mem_right {α β} {l : List α} {r : List β} (hlen : l.length = r.length) {b : β}
+    (hb : b ∈ r) : ∃ a, (a, b) ∈ l.zip r := by
+  obtain ⟨i, hi, rfl⟩ := List.getElem_of_mem hb
+  exact ⟨l[i]'(by omega), List.mem_iff_getElem.mpr ⟨i, by simp [hi]; omega, by simp⟩⟩
+
+theorem zip_unique_right {α β} {l : List α} {r : List β} (hn : l.Nodup) {a : α} {b b' : β}
+    (h : (a, b) ∈ l.zip r) (h' : (a, b') ∈ l.zip r) : b = b' := by
+  induction l generalizing r with
+  | nil => simp at h
+  | cons x l ih =>
+    cases r with
+    | nil => simp at h
+    | cons y r =>
+      rw [List.nodup_cons] at hn
+      simp only [List.zip_cons_cons, List.mem_cons, Prod.mk.injEq] at h h'
+      rcases h with ⟨rfl, rfl⟩ | h
+      · rcases h' with ⟨_, rfl⟩ | h'
+        · rfl
+        · exact absurd (List.of_mem_zip h').1 hn.1
+      · rcases h' with ⟨rfl, _⟩ | h'
+        · exact absurd (List.of_mem_zip h).1 hn.1
+        · exact ih hn.2 h h'
+
+theorem monthEndOf_inj {A B : Int} (h : monthEndOf A = monthEndOf B) : A = B := by
+  have := congrArg monthToId h
+  rwa [monthToId_monthEndOf, monthToId_monthEndOf] at this
+
+theorem lt_of_monthEndOf_lt_firstOf {I P : Int} (h : monthEndOf I < firstOf P) : I < P := by
+  by_contra hc
+  exact not_monthEndOf_lt_firstOf (by omega) h
+
+theorem sliceWF_pe {res : Nat} {sl : List Cell} {L : Int} (w : SliceWF res sl L) {c : Cell} (hc : c ∈ sl) :
+    c.pe = monthEndOf (monthToId c.ps + L - 1) ∧ firstOf (monthToId c.ps) = c.ps := by
+  obtain ⟨hv, hd, h70, hpe, _⟩ := w.cell c hc
+  refine ⟨?_, firstOf_monthToId hv hd⟩
+  have hL : ((L.toNat : Nat) : Int) = L := Int.toNat_of_nonneg (by have := w.hL; omega)
+  rw [hpe]
+  have c1 : (((L.toNat : Nat) : Rat)) = ((L : Int) : Rat) := by rw [← hL]; push_cast; rw [hL]
+  rw [c1, addMonths_firstOf c.ps _ hd (by have := w.hL; omega)]
+  have h := firstOf_pred (monthToId c.ps + L - 1)
+  rw [show monthToId c.ps + L - 1 + 1 = monthToId c.ps + L by omega] at h
+  exact h
+
+
+
+/-- a sub-period cell of `c` is re-labelled by `_aggregate_period` to exactly the period of `c` -/
+theorem relabel_to_parent {res : Nat} {sl : List Cell} {L : Int} (w : SliceWF res sl L)
+    {F : List String} {origin init c0 : Date} {z0 : Int} {sorted rel : List Cell}
+    (hinit : init = monthEndOf (monthToId origin + z0 * L)) (hlt : init < c0)
+    (hgrid : ∀ c ∈ sl, ∃ z : Int, monthToId c.ps = monthToId origin + z * L + 1)
+    (hsort : sorted.Pairwise (fun a b => ¬ b.ps < a.ps)) (hc0 : ∀ x ∈ sorted, ¬ x.ps < c0)
+    (hrel : assignWindows L .month init sorted = .ok rel)
+    {x rc : Cell} (hp : (x, rc) ∈ sorted.zip rel) {c : Cell} {part : List Cell} (hc : c ∈ sl)
+    (hsub : SubCellsN res (L / (res : Int)).toNat F c part) (hx : x ∈ part) :
+    rc.ps = c.ps ∧ rc.pe = c.pe ∧ rc.ev = c.ev ∧ rc.values = x.values ∧ rc.md = c.md := by
+  obtain ⟨hlen, hall⟩ := assignWindows_spec hrel
+  obtain ⟨k', hwin, _, _, hev, hvals, hmd, _, _⟩ := hall (x, rc) hp
+  obtain ⟨k, hfirst, hpe⟩ := assignWindows_first (k0 := 0) (init0 := init) hsort (by intro _ _ j hj; omega)
+    hrel (x, rc) hp
+  simp only at hfirst hpe hwin hev hvals hmd
+  obtain ⟨hv, hd, h70, _, _⟩ := w.cell c hc
+  obtain ⟨hcpe, hcps⟩ := sliceWF_pe w hc
+  obtain ⟨hn1, hLn⟩ := sliceWF_n w
+  -- x is sub-period j of c
+  have hxm : (x.ps, x.pe) ∈ obsSubs c res (L / (res : Int)).toNat := by
+    rw [← hsub.1]; exact List.mem_map.mpr ⟨x, hx, rfl⟩
+  unfold obsSubs at hxm
+  rw [subperiods_firstOf hd h70] at hxm
+  obtain ⟨j, hj, hje⟩ := List.mem_map.mp (List.mem_filter.mp hxm).1
+  have hjn : j < (L / (res : Int)).toNat := by simpa using hj
+  have hxps : x.ps = firstOf (monthToId c.ps + ((j * res : Nat) : Int)) := by
+    have := congrArg Prod.fst hje; simpa [subOf] using this.symm
+  -- month arithmetic
+  obtain ⟨z, hz⟩ := hgrid c hc
+  have hLpos := w.hL
+  have hjr : ((j * res : Nat) : Int) + (res : Int) ≤ L := by
+    have h1 : (j + 1) * res ≤ (L / (res : Int)).toNat * res := Nat.mul_le_mul_right _ (by omega)
+    have : (((j + 1) * res : Nat) : Int) ≤ L := by rw [hLn]; exact_mod_cast h1
+    push_cast at this ⊢; linarith
+  have hres1 : (1 : Int) ≤ res := by exact_mod_cast w.hres
+  have hI : monthToId origin + z0 * L < monthToId c.ps + ((j * res : Nat) : Int) := by
+    apply lt_of_monthEndOf_lt_firstOf
+    rw [← hinit, ← hxps]
+    exact Date.lt_of_lt_of_not_lt_agg hlt (hc0 x (List.of_mem_zip hp).1)
+  have hd0 : 0 ≤ z - z0 := by
+    by_contra hneg
+    have h1 : z - z0 ≤ -1 := by omega
+    have h2 := Int.mul_le_mul_of_nonneg_right h1 (by omega : (0 : Int) ≤ L)
+    have h3 : (z - z0) * L = z * L - z0 * L := by ring
+    omega
+  obtain ⟨a, ha⟩ : ∃ a : Nat, (a : Int) = z - z0 := ⟨(z - z0).toNat, Int.toNat_of_nonneg hd0⟩
+  have hM0 : monthToId c.ps = (monthToId origin + z0 * L) + (a : Int) * L + 1 := by
+    rw [ha, hz]; ring
+  rw [hinit] at hfirst hpe hwin
+  rw [hxps] at hfirst
+  have hk : k = a := firstWindow_month hLpos (by omega) (by
+    have : ((a : Int) + 1) * L = (a : Int) * L + L := by ring
+    omega) hfirst
+  subst hk
+  rw [windowAt_month] at hpe hwin
+  simp only at hpe
+  have hk' : k' = k := by
+    have h1 : rc.pe = monthEndOf (monthToId origin + z0 * L + ((k' : Int) + 1) * L) := by
+      have := congrArg Prod.snd hwin; simpa using this
+    rw [hpe] at h1
+    have h2 := monthEndOf_inj h1
+    have h3 : ((k : Int) + 1) * L = ((k' : Int) + 1) * L := by omega
+    have h4 := Int.eq_of_mul_eq_mul_right (by omega : L ≠ 0) h3
+    omega
+  subst hk'
+  have hps : rc.ps = firstOf (monthToId origin + z0 * L + (k' : Int) * L + 1) := by
+    have := congrArg Prod.fst hwin; simpa using this
+  refine ⟨?_, ?_, ?_, hvals, ?_⟩
+  · rw [hps, ← hM0, hcps]
+  · rw [hpe, hcpe]; congr 1
+    have : ((k' : Int) + 1) * L = (k' : Int) * L + L := by ring
+    omega
+  · rw [hev, (hsub.2.1 x hx).2.1]
+  · rw [hmd, (hsub.2.1 x hx).1]
+
+
 end Bermuda.Units
